@@ -73,6 +73,10 @@ def load_known():
 
 def main(argv=None):
     argv = argv or sys.argv[1:]
+    if os.environ.get('PYTHONHASHSEED') != '0':
+        # term / dict iteration order (hence the text of every SMT query and its cost) must not vary from run to run
+        os.environ['PYTHONHASHSEED'] = '0'
+        os.execv(sys.executable, [sys.executable, '-m', 'cbv.check'] + list(argv))
     prop = argv[0]
     tier = os.environ.get('VERIF_TIER', 'quick')
     if '--tier' in argv:
